@@ -52,6 +52,11 @@ def main():
             off = 0
             while off < len(data):
                 off += os.write(fd, data[off:off + (1 << 16)])
+        elif op == "reopen":
+            # `echo ... > /dev/stderr` / `>> /dev/stdout`: the command opens its own stream again BY NAME and writes there
+            data = base64.b64decode(step[3])
+            with open("/dev/stdout" if step[1] == 1 else "/dev/stderr", "ab" if step[2] == "append" else "wb") as f2:
+                f2.write(data)
         elif op == "file":
             p = os.path.join(out, step[1])
             os.makedirs(os.path.dirname(p), exist_ok=True)
